@@ -387,12 +387,20 @@ pub fn eval(c: &Case18) -> CaseOutcome {
     let flat = flatten(&b.prog);
     let lines: Vec<usize> = rendered.flat_offsets.iter().map(|o| rendered.line_of(*o)).collect();
     let image = data_image(&b.prog.data);
-    let out = run_cli(rendered.text.as_bytes(), if b.stdin_closed { Stdin::Closed } else { Stdin::Data(&b.stdin) }, false, 4 << 20, 30_000);
+    // these programs are straight-line code of a few dozen instructions: ten CPU seconds are several thousand times the work
+    let out = run_cli_limited(rendered.text.as_bytes(), if b.stdin_closed { Stdin::Closed } else { Stdin::Data(&b.stdin) }, false, 4 << 20, 30_000, Limits { cpu_secs: Some(10), ..DEFAULT_LIMITS });
     let base_replay = |exp: &[Ev]| json!({"kind":"cli","source":rendered.text,"stdin":String::from_utf8_lossy(&b.stdin),"stdin_closed":b.stdin_closed,"interpreted":false,
         "expected_events": exp.iter().map(|e| format!("{:?}", e)).collect::<Vec<_>>()});
     match &out.status {
         Status::Timeout | Status::SpawnError(_) => return CaseOutcome::Inconclusive(format!("{:?}", out.status)),
         _ => {}
+    }
+    if matches!(out.status, Status::Signal(24)) {
+        return CaseOutcome::Fail {
+            key: "c18|spins".into(),
+            what: format!("the emulator used 10 s of CPU time on a straight-line program of {} instructions (stdin {}) and was ended by the kernel's CPU limit", flat.ops.len(), if b.stdin_closed { "closed".to_string() } else { format!("{} bytes then end of input", b.stdin.len()) }),
+            replay: base_replay(&[]),
+        };
     }
     if !out.clean() {
         return CaseOutcome::Fail { key: "c18|abnormal-exit".into(), what: format!("status {:?} {}", out.status, out.err_str().lines().find(|l| l.contains("panicked") || !l.trim().is_empty()).unwrap_or("")), replay: base_replay(&[]) };
@@ -513,7 +521,50 @@ pub fn eval(c: &Case18) -> CaseOutcome {
         1 => classes.push("c18/stdin-no-final-newline".into()),
         _ => {}
     }
+    // the same program in the emulator built with cargo's default profile (what `cargo run` gives; arithmetic overflow is
+    // checked there): it must end normally with byte-identical output
+    if debug_cli_available() {
+        let dbg = run_bin_limited(CLI_DEBUG_BIN, rendered.text.as_bytes(), if b.stdin_closed { Stdin::Closed } else { Stdin::Data(&b.stdin) }, false, 4 << 20, 60_000, Limits { cpu_secs: Some(30), ..DEFAULT_LIMITS });
+        let mut rp = base_replay(&exp);
+        rp["binary"] = json!("unoptimised");
+        match &dbg.status {
+            Status::Timeout | Status::SpawnError(_) => return CaseOutcome::Inconclusive(format!("unoptimised build: {:?}", dbg.status)),
+            _ => {}
+        }
+        if !dbg.clean() {
+            return CaseOutcome::Fail {
+                key: "c18|unoptimised-build|abnormal-exit".into(),
+                what: format!("the emulator built with cargo's default profile ends with {:?} {} (the optimised build runs the same program to its end)", dbg.status, dbg.err_str().lines().find(|l| l.contains("panicked")).unwrap_or("")),
+                replay: rp,
+            };
+        }
+        if dbg.stdout != out.stdout {
+            return CaseOutcome::Fail { key: "c18|unoptimised-build|output-differs".into(), what: "the emulator built with cargo's default profile prints something else than the optimised build".into(), replay: rp };
+        }
+        classes.push("c18/also-in-unoptimised-build".into());
+    }
     CaseOutcome::Pass { nontrivial: nt, classes, digest: fnv_str(&rendered.text) ^ fnv64(&b.stdin) }
+}
+
+/// only the way the program ends, in the given build of the emulator (used by the checks about aborts)
+pub fn eval_ends_normally(c: &Case18, bin: &'static str, key: &str) -> CaseOutcome {
+    if !sound(c) {
+        return CaseOutcome::Pass { nontrivial: false, classes: vec![], digest: 0 };
+    }
+    let b = build(c);
+    let layout = crate::progs::Layout { choices: c.choices.clone(), comments: false, trailing_newline: true, pack_lines: false };
+    let rendered = render_program(&b.prog, &layout);
+    let out = run_bin_limited(bin, rendered.text.as_bytes(), if b.stdin_closed { Stdin::Closed } else { Stdin::Data(&b.stdin) }, false, 4 << 20, 60_000, Limits { cpu_secs: Some(30), ..DEFAULT_LIMITS });
+    let replay = json!({"kind":"cli","source":rendered.text,"stdin":String::from_utf8_lossy(&b.stdin),"stdin_closed":b.stdin_closed,"interpreted":false,"binary": if bin == CLI_DEBUG_BIN { "unoptimised" } else { "optimised" }});
+    match &out.status {
+        Status::Timeout | Status::SpawnError(_) => return CaseOutcome::Inconclusive(format!("{:?}", out.status)),
+        _ => {}
+    }
+    if !out.clean() {
+        return CaseOutcome::Fail { key: key.to_string(), what: format!("a program of console interrupt calls ends with {:?} {} in the {} build", out.status, out.err_str().lines().find(|l| l.contains("panicked")).unwrap_or(""), if bin == CLI_DEBUG_BIN { "unoptimised (cargo's default profile)" } else { "optimised" }), replay };
+    }
+    let nt = b.stdin_closed || c.calls.iter().any(|(k, _)| matches!(k, Call::BufIn { .. }));
+    CaseOutcome::Pass { nontrivial: nt, classes: vec![format!("{}/io-program-ends-normally", key.split('|').next().unwrap_or("c15"))], digest: fnv_str(&rendered.text) ^ fnv64(&b.stdin) }
 }
 
 pub fn run(ctx: &Ctx) {
